@@ -46,6 +46,7 @@ def strategy_impl(draw, tier, nonreversed=False):
         # listing order of the faces / axes in the face_connections dictionaries (must not matter)
         "face_order": list(draw(st.permutations(list(range(Kx * Ky))))),
         "reverse_axes": draw(st.booleans()),
+        "carry_coords": draw(st.booleans()),   # the input carries the dataset's coordinates (face labels included) or none
     }
 
 
@@ -107,6 +108,8 @@ def check(case, ctx):
     grid = must_return("Grid construction", Grid, ds, coords=gc, face_connections=fc, autoparse_metadata=False, periodic=False, **kw)
     base_dims = ["face"] + [e[0] for e in case["extra"]] + ["yc", "xc"]
     da = xr.DataArray(A, dims=base_dims).transpose(*case["dims"])
+    if case.get("carry_coords"):
+        da = da.assign_coords({d: ds[d] for d in da.dims if d in ds.coords})
     ckw = {"to": case["to"]}
     if case["bsrc"] == "call":
         ckw.update(boundary=case["boundary"], fill_value=case["fill"])
